@@ -103,6 +103,11 @@ func profiles() map[string]Profile {
 	p.Cfg = func(r *rand.Rand) int { return cbRefs | cbItemAlloc | (r.Intn(256) &^ cbValLength) }
 	m["C15"] = p
 
+	p.Name = "C15x" // provokes known finding F11: re-opened (unloaded) trees, snapshots, mutations of the original, then non-evicting reads through the snapshots
+	p.Reopen, p.Snap, p.SnapRead, p.SnapClose, p.Del, p.Evict = 10, 10, 25, 3, 16, 10
+	p.FlushBeforeReopen, p.NoFinalDump, p.Dump, p.Visit, p.NVisit, p.Ops, p.Cold = true, true, 0, 2, 0, 50, 6
+	m["C15x"] = p
+
 	p = base
 	p.Name = "C09"
 	p.MemOnly = 0
